@@ -23,8 +23,8 @@ func ccache(m CLIMember) *CLIMember           { return &m }
 // directory; router of an HTTP store lacking the chunk and a directory; failover group whose
 // first member is down}, the cache holding one valid, one invalid and one absent chunk.
 func TestCLIEnum(t *testing.T) {
-	if hx.Shard() != 0 {
-		t.Skip("shard != 0")
+	if hx.Shard() != hx.Shards()-1 { // shard 0 already carries the library enumerations
+		t.Skip("not the last shard")
 	}
 	if cliBin() == "" {
 		t.Skip("VERIF_DESYNC_BIN not set")
@@ -112,7 +112,7 @@ func TestSelfCLI(t *testing.T) {
 		}
 	}
 
-	if cliBin() == "" || hx.Shard() != 0 {
+	if cliBin() == "" || hx.Shard() != 1%hx.Shards() {
 		return
 	}
 	base := func() *CLICase {
